@@ -531,4 +531,144 @@ theorem addShred_slot_cap (env : Nat → Content) (b : BlockData) (s : Shred) :
         · have := hr { b2 with shreds := upd b2.shreds s.slice (some (upd ((b2.shreds s.slice).getD arrEmpty) s.idx (some s))) } s.slice
           exact ⟨this.1.trans (e2.1.trans e1.1), this.2.trans (e2.2.trans e1.2)⟩
 
+
+/-! ### the leader's own slices -/
+
+theorem tryReconstructBlock_slot_cap (b : BlockData) :
+    (tryReconstructBlock b).1.slot = b.slot ∧ (tryReconstructBlock b).1.cap = b.cap := by
+  unfold tryReconstructBlock
+  split
+  · exact ⟨rfl, rfl⟩
+  split
+  · exact ⟨rfl, rfl⟩
+  split
+  · exact ⟨rfl, rfl⟩
+  simp only
+  repeat' split
+  all_goals exact ⟨rfl, rfl⟩
+
+/-- the state of `add_own_slice` just before it tries to reconstruct the block -/
+def ownInsert (b : BlockData) (c : Commitment) (sz : Nat) (parent : Option (Nat × Nat)) (txs : Option (List Nat)) : BlockData :=
+  let b := { b with cache := upd b.cache c.slice (some c) }
+  let b := if c.isLast then markLastSlice b c.slice else b
+  let arr : ShredArr := fun j => if j < TOTAL_SHREDS then some ⟨c.slice, c.isLast, c.root, j, sz, true⟩ else none
+  { b with shreds := upd b.shreds c.slice (some arr),
+           slices := upd b.slices c.slice (some ⟨c.slice, c.isLast, c.root, parent, txs⟩) }
+
+theorem addOwnSlice_fst (b : BlockData) (c : Commitment) (sz : Nat) (parent : Option (Nat × Nat)) (txs : Option (List Nat))
+    (hl : b.lastSlice = none) :
+    (addOwnSlice b c sz parent txs).1 = (tryReconstructBlock (ownInsert b c sz parent txs)).1 := by
+  unfold addOwnSlice ownInsert
+  simp only
+  rw [if_neg (by simp [hl])]
+  generalize tryReconstructBlock _ = res
+  obtain ⟨b', r⟩ := res
+  cases r <;> rfl
+
+/-- `add_own_slice` keeps the invariant whenever its own `assert!(self.last_slice.is_none())` holds and
+    the first slice carries a parent (what the block producer always does) -/
+theorem addOwnSlice_binv (b : BlockData) (c : Commitment) (sz : Nat) (parent : Option (Nat × Nat)) (txs : Option (List Nat))
+    (h : BInv b) (hl : b.lastSlice = none) (hp : c.slice = 0 → parent.isSome) :
+    BInv (addOwnSlice b c sz parent txs).1 ∧ (addOwnSlice b c sz parent txs).1.slot = b.slot ∧
+      (addOwnSlice b c sz parent txs).1.cap = b.cap := by
+  have hnotree : b.tree = none := by
+    cases ht : b.tree with
+    | none => rfl
+    | some roots => obtain ⟨l, h1, _⟩ := h.tre roots ht; rw [hl] at h1; simp at h1
+  have hnocomp : b.completed = none := by
+    cases hc : b.completed with
+    | none => rfl
+    | some blk => obtain ⟨roots, h1, _⟩ := h.cmp blk hc; rw [hnotree] at h1; simp at h1
+  -- the state after inserting the slice
+  have key : ∀ (il : Bool) (_ : il = c.isLast) (sh : Nat → Option ShredArr) (sl : Nat → Option RSlice) (ls : Option Nat),
+      (∀ i, i ≠ c.slice → (sh i = b.shreds i ∨ sh i = none) ∧ (sl i = b.slices i ∨ sl i = none)) →
+      (∀ i r, i ≠ c.slice → sl i = some r → sh i = b.shreds i) →
+      (∀ l i, ls = some l → l < i → i ≠ c.slice → sh i = none ∧ sl i = none) →
+      (∀ l, ls = some l → l = c.slice) →
+      BInv { b with
+        cache := upd b.cache c.slice (some c), lastSlice := ls,
+        shreds := upd sh c.slice (some (fun j => if j < TOTAL_SHREDS then some ⟨c.slice, il, c.root, j, sz, true⟩ else none)),
+        slices := upd sl c.slice (some ⟨c.slice, il, c.root, parent, txs⟩) } := by
+    intro il hile sh sl ls hsub hkeep hlast hls
+    subst hile
+    constructor
+    · intro i arr j s h1 h2
+      simp only [upd] at h1 ⊢
+      split at h1
+      · rename_i hi; subst hi
+        simp only [Option.some.injEq] at h1; subst h1
+        simp only at h2
+        split at h2
+        · simp only [Option.some.injEq] at h2; subst h2
+          simp [Shred.commitment]
+        · simp at h2
+      · rename_i hi
+        rcases (hsub i hi).1 with h3 | h3
+        · rw [h3] at h1
+          rw [if_neg hi]
+          exact h.shr i arr j s h1 h2
+        · rw [h3] at h1; simp at h1
+    · intro i r h1
+      simp only [upd] at h1 ⊢
+      split at h1
+      · rename_i hi; subst hi
+        simp only [Option.some.injEq] at h1; subst h1
+        refine ⟨rfl, hp, ⟨c, by simp, rfl⟩,
+          ⟨fun j => if j < TOTAL_SHREDS then some ⟨c.slice, c.isLast, c.root, j, sz, true⟩ else none, by simp, ?_⟩⟩
+        intro j hj; simp [hj]
+      · rename_i hi
+        have hsh := hkeep i r hi h1
+        rcases (hsub i hi).2 with h3 | h3
+        · rw [h3] at h1
+          obtain ⟨a, b', ⟨c', hc', hr⟩, arr, harr, hf⟩ := h.slc i r h1
+          exact ⟨a, b', ⟨c', by rw [if_neg hi]; exact hc', hr⟩, ⟨arr, by rw [if_neg hi, hsh]; exact harr, hf⟩⟩
+        · rw [h3] at h1; simp at h1
+    · intro l i h1 h2
+      simp only at h1
+      have hlc := hls l h1
+      have hi : i ≠ c.slice := by omega
+      simp only [upd]
+      rw [if_neg hi, if_neg hi]
+      exact hlast l i h1 h2 hi
+    · intro roots h1
+      simp only at h1; rw [hnotree] at h1; simp at h1
+    · intro blk h1
+      simp only at h1; rw [hnocomp] at h1; simp at h1
+  rw [addOwnSlice_fst b c sz parent txs hl]
+  have hB : BInv (ownInsert b c sz parent txs) := by
+    unfold ownInsert
+    by_cases hil : c.isLast = true
+    · simp only [hil, if_true, markLastSlice]
+      exact key true hil.symm (retainLe b.shreds c.slice) (retainLe b.slices c.slice) (some c.slice)
+        (by
+          intro i _
+          simp only [retainLe]
+          constructor <;> (split <;> simp))
+        (by
+          intro i r _ h1
+          simp only [retainLe] at h1 ⊢
+          split at h1
+          · rename_i hi; rw [if_pos hi]
+          · simp at h1)
+        (by
+          intro l i h1 h2 _
+          simp only [Option.some.injEq] at h1; subst h1
+          simp only [retainLe]
+          rw [if_neg (by omega), if_neg (by omega)]
+          exact ⟨rfl, rfl⟩)
+        (by intro l h1; simp only [Option.some.injEq] at h1; exact h1.symm)
+    · simp only [hil, Bool.false_eq_true, if_false]
+      have hil' : false = c.isLast := by cases h : c.isLast <;> simp_all
+      have := key false hil' b.shreds b.slices none (fun i _ => ⟨Or.inl rfl, Or.inl rfl⟩) (fun _ _ _ _ => rfl)
+        (fun l i h1 => by simp at h1) (fun l h1 => by simp at h1)
+      rw [← hl] at this
+      exact this
+  have hsc := tryReconstructBlock_slot_cap (ownInsert b c sz parent txs)
+  have hb0 : (ownInsert b c sz parent txs).slot = b.slot ∧ (ownInsert b c sz parent txs).cap = b.cap := by
+    unfold ownInsert
+    by_cases hil : c.isLast = true
+    · simp [hil, markLastSlice]
+    · simp [hil]
+  exact ⟨(tryReconstructBlock_binv _ hB).1, hsc.1.trans hb0.1, hsc.2.trans hb0.2⟩
+
 end AgModel.Blockstore
